@@ -21,8 +21,8 @@ func init() {
 		Rule: "one run = one well-formed application (generated, or one of the repository's examples assembled with the real assembler) + configuration + mode (long-lived/persisted/mixed, any backend) + a junk-heavy input history; " +
 			"the first requests of every example are swept systematically over its selector alphabet plus junk representatives (sub-batch), the rest is drawn; " +
 			"non-trivial = at least 3 requests executed and at least one junk or out-of-range input; distinct = distinct sequences of abstract session states",
-		Runs:       map[string]int{"quick": 70000, "thorough": 1500000},
-		MaxSeconds: map[string]int{"quick": 45, "thorough": 1200},
+		Runs:       map[string]int{"quick": 70000, "thorough": 5000000},
+		MaxSeconds: map[string]int{"quick": 45, "thorough": 900},
 		Run:        runC08,
 		Prefix:     c08Prefix,
 		Assumptions: []string{
